@@ -22,7 +22,8 @@ import os
 from mc.engine import Check, Res
 from mc import gentest_harness as gh
 from mc.models import gentest_spec as spec
-from mc.checks.c11 import mk, tokens, kinds, placements
+from mc.checks.c11 import (mk, tokens, kinds, placements, tf, specs_for,
+                           two_file_sets, CWD, SUB, TMP, ALT, SIB, ELSE)
 
 TEXT_KINDS = ('text', 'csv', 'noext', 'json')
 MARK = gh.TMP_MARK.encode()
@@ -142,7 +143,12 @@ class C12(Check):
              ('files1', 'one output file: kind x place x naming x '
                         'iterations; text files over the token alphabet'),
              ('files2', 'two output files'),
-             ('options', 'stream / file command x option product')]
+             ('options', 'stream / file command x option product'),
+             ('prehist', 'pre-history {fresh directory, outputs present '
+                         'from a manual run, previous generation in the same '
+                         'directory} x one file at every place / two files '
+                         'with colliding names x naming; content-changed and '
+                         'no-longer-produced applied to each file')]
         if tier == 'thorough':
             L.append(('pairs', 'two simultaneous mutations on different '
                                'outputs'))
@@ -207,6 +213,31 @@ class C12(Check):
                                              no_stderr=no_stderr,
                                              nonzero=nonzero, status=status,
                                              script=sc)
+        elif layer == 'prehist':
+            singles = []
+            for place in (CWD, SUB, ALT, SIB, TMP, ELSE):
+                for n in ('o.txt', 'Report.txt'):
+                    singles.append([tf(n, place, ['plain', 'regex'])])
+            singles.append([{'kind': 'bin', 'sub': CWD}])
+            singles.append([{'kind': 'png', 'sub': SUB}])
+            sets = singles + list(two_file_sets(tier))
+            for fs in sets:
+                places = [f['sub'] for f in fs]
+                for hist in ('fresh', 'manual', 'regen'):
+                    for sp in specs_for(places, hist != 'fresh'):
+                        if sp == 'none' and len(fs) > 1:
+                            continue
+                        for it in ((1, 2) if (len(fs) == 1
+                                              or tier == 'thorough')
+                                   else (2,)):
+                            c = mk(out=['plain'], err=['quotes'], files=fs,
+                                   spec=sp, iters=it,
+                                   pre=1 if hist == 'manual' else 0)
+                            if hist == 'regen':
+                                c['regen'] = 1
+                            if tier != 'thorough':
+                                c['menu'] = 'short'
+                            yield c
         elif layer == 'pairs':
             for o in ('plain', 'today', 'regex'):
                 for k in ('text', 'bin'):
@@ -275,6 +306,21 @@ class C12(Check):
             if s != cur:
                 out.append(('status', 'status->%d' % s, False,
                             'd_status.dat', ('%d\n' % s).encode(), '-'))
+        if case.get('menu') == 'short':
+            # per output one character / byte altered, one line added, one
+            # line removed, the file no longer produced; one status change
+            seen = set()
+            short = []
+            for m in out:
+                k = m[1].split('@')[0]
+                cls_ = ('content' if k in ('alter', 'flip') else k
+                        if k in ('not-produced', 'add', 'remove') else
+                        'status' if k.startswith('status') else None)
+                if cls_ is None or m[2] or (m[0], cls_) in seen:
+                    continue
+                seen.add((m[0], cls_))
+                short.append(m)
+            out = short
         return out
 
     # ----------------------------------------------------------- run_case
@@ -282,9 +328,23 @@ class C12(Check):
         R = Res()
         H = self.H
         pairs = case.get('pairs')
-        b = H.build(dict((k, v) for k, v in case.items() if k != 'pairs'))
+        regen = case.get('regen')
+        plain = dict((k, v) for k, v in case.items()
+                     if k not in ('pairs', 'regen'))
+        if regen:
+            # a previous generation (and run of the generated test) in the
+            # same directory: its script, references and outputs are there
+            pb = H.build(plain)
+            pg = H.generate(pb)
+            R.ev()
+            if pg['exc'] is not None or pg['exit'] is not None:
+                R.out('not-generated:previous')
+                return R
+            b = H.build(plain, wipe=False)
+        else:
+            b = H.build(plain)
         case = b.case
-        g = H.generate(b)
+        g = H.generate(b, settle=0.03 if (regen or case.get('pre')) else 0.0)
         R.ev()
         R.states = 1
         if g['exc'] is not None or g['exit'] is not None \
@@ -299,13 +359,14 @@ class C12(Check):
             R.out('not-compilable')
             return R
         basenames = [os.path.basename(rel) for rel, _, _ in b.files]
-        want_tests, names_ok = spec.expected_tests(case, basenames)
-        guard_of = {}                 # target -> test name
+        want_tests, names_ok, groups = spec.expected_tests(case, basenames)
+        ckind = spec.collision_kind(case, basenames)
+
+        def target_of(gd):
+            return 'file:%d' % gd[1] if gd[0] == 'file' else gd[0]
+        guard_of = {}                 # target -> documented test name
         for t, gd in want_tests.items():
-            if gd[0] == 'file':
-                guard_of['file:%d' % gd[1]] = t
-            else:
-                guard_of[gd[0]] = t
+            guard_of[target_of(gd)] = t
         n1 = '1' if case['iters'] == 1 else '2+'
 
         def tname(target):
@@ -350,18 +411,33 @@ class C12(Check):
                      'other': r0['other'],
                      'message': r0['details'].get(t, '')[-300:]})
             return R
-        if not names_ok or set(want_tests) != set(r0['tests']):
-            if names_ok:
-                R.viol('test-set:missing=%s' % ','.join(sorted(
-                    tname(k) for k, t in guard_of.items()
-                    if t not in r0['tests'])) or '-',
-                    'one-test-per-stream-file-status',
-                    {'case': case, 'tests': sorted(r0['tests']),
-                     'expected': sorted(want_tests)})
-            else:
-                R.unspec += 1
-            R.out('test-names-unspecified')
+        if names_ok and set(want_tests) != set(r0['tests']):
+            R.viol('test-set:missing=%s' % ','.join(sorted(
+                tname(k) for k, t in guard_of.items()
+                if t not in r0['tests'])) or '-',
+                'one-test-per-stream-file-status',
+                {'case': case, 'tests': sorted(r0['tests']),
+                 'expected': sorted(want_tests)})
+            R.out('test-set-differs')
             return R
+        # outputs whose documented test names coincide: any test called
+        # <prefix>... may be theirs, but each needs one of its own
+        cand = dict((tg, set([t])) for tg, t in guard_of.items())
+        group_of = {}
+        owner = {}
+        for pfx, members in groups.items():
+            names = set(t for t in r0['tests']
+                        if t.startswith(pfx) and t not in want_tests)
+            for gd in members:
+                cand[target_of(gd)] = names
+                group_of[target_of(gd)] = pfx
+            if len(names) < len(members):
+                R.viol('test-set:short:%s' % ckind,
+                       'one-test-per-stream-file-status',
+                       {'case': case, 'tests': sorted(r0['tests']),
+                        'prefix': pfx, 'outputs_sharing_it': len(members)})
+        if groups:
+            R.unspec += 1
 
         muts = self.mutations(b)
         reverted_once = set()
@@ -369,31 +445,46 @@ class C12(Check):
 
         def check(target_list, kinds_, grays, bad, sub):
             """compare failing set with the model for mutated targets"""
-            expected = set()
-            graytests = set()
-            for tg, gray in zip(target_list, grays):
-                t = guard_of.get(tg)
-                if t is None:
-                    continue
-                (graytests if gray else expected).add(t)
             badset = set(bad)
-            for t in sorted(expected - badset):
-                tg = [x for x in target_list if guard_of.get(x) == t][0]
-                i = target_list.index(tg)
-                R.viol('undetected:%s:%s:%s' % (
-                    tclass(tg), mclass(kinds_[i]), sub['class']),
-                    'change-is-reported-by-its-test',
-                    {'case': case, 'mutation': sub, 'failing': bad,
-                     'expected_failing': sorted(expected)}, sub)
-            for t in sorted(badset - expected - graytests):
+            allowed = set()
+            for i, (tg, gray) in enumerate(zip(target_list, grays)):
+                c = cand.get(tg)
+                if c is None:
+                    continue          # no test guards it (--no-stdout ...)
+                allowed |= c
+                hit = c & badset
+                if gray:
+                    continue
+                if not hit:
+                    R.viol('undetected:%s:%s:%s' % (
+                        tclass(tg), mclass(kinds_[i]),
+                        sub['class'] if tg not in group_of else ckind),
+                        'change-is-reported-by-its-test',
+                        {'case': case, 'mutation': sub, 'failing': bad,
+                         'candidates': sorted(c)}, sub)
+                elif tg in group_of:
+                    if len(hit) > 1 and len(target_list) == 1:
+                        R.viol('collateral:group:%s:%s' % (
+                            ckind, mclass(kinds_[i])),
+                            'untouched-outputs-keep-passing',
+                            {'case': case, 'mutation': sub, 'failing': bad},
+                            sub)
+                    elif len(target_list) == 1:
+                        t = sorted(hit)[0]
+                        if owner.setdefault(tg, t) != t:
+                            R.viol('collateral:group-inconsistent:%s'
+                                   % ckind, 'change-is-reported-by-its-test',
+                                   {'case': case, 'mutation': sub,
+                                    'failing': bad, 'earlier': owner[tg]},
+                                   sub)
+            for t in sorted(badset - allowed):
                 gd = want_tests.get(t)
                 R.viol('collateral:%s-fails-on-%s:%s' % (
                     self.gname(b, gd), '+'.join(tclass(x) for x in
                                                 target_list),
                     mclass(kinds_[0])),
                     'untouched-outputs-keep-passing',
-                    {'case': case, 'mutation': sub, 'failing': bad,
-                     'expected_failing': sorted(expected)}, sub)
+                    {'case': case, 'mutation': sub, 'failing': bad}, sub)
 
         for (target, kind, gray, dname, new, cl) in muts:
             sub = {'target': target, 'kind': kind, 'class': cl,
@@ -401,18 +492,17 @@ class C12(Check):
             H.write_data(b, dname, new)
             r, bad = run()
             R.states += 1
-            guarded = target in guard_of
+            guarded = target in cand
+            hit = bool(cand.get(target, set()) & set(bad))
             if gray:
                 R.unspec += 1
                 ngray += 1
                 R.out('gray:%s:%s' % (tname(target).split('-')[0],
-                                      'fails' if guard_of.get(target) in bad
-                                      else 'passes'))
+                                      'fails' if hit else 'passes'))
             elif guarded:
                 nmust += 1
                 R.out('%s:%s:%s' % (tname(target), kind.split('@')[0],
-                                    'detected' if guard_of[target] in bad
-                                    else 'UNDETECTED'))
+                                    'detected' if hit else 'UNDETECTED'))
             else:
                 nfree += 1
                 R.out('%s:unguarded:%s' % (tname(target),
@@ -463,8 +553,8 @@ class C12(Check):
                     R.states += 1
                     nmust += 1
                     R.out('pair:%s' % ('both' if all(
-                        guard_of.get(x[0]) in bad for x in (a, c)
-                        if x[0] in guard_of) else 'MISSED'))
+                        cand[x[0]] & set(bad) for x in (a, c)
+                        if x[0] in cand) else 'MISSED'))
                     check([a[0], c[0]], [a[1], c[1]], [False, False], bad,
                           sub)
                     H.write_data(b, a[3], b.data[a[3]])
@@ -474,6 +564,19 @@ class C12(Check):
                 R.viol('revert-fails:after-pairs',
                        'keeps-passing-when-nothing-changed',
                        {'case': case, 'failing': bad2})
+        # each of the outputs sharing a documented test name must have been
+        # reported by a test of its own
+        for pfx in groups:
+            seen = {}
+            for tg, t in sorted(owner.items()):
+                if group_of.get(tg) != pfx:
+                    continue
+                if t in seen:
+                    R.viol('shared-test:%s' % ckind,
+                           'change-is-reported-by-its-test',
+                           {'case': case, 'test': t,
+                            'reports_both': [seen[t], tg]})
+                seen[t] = tg
         R.nontrivial = nmust > 0
         return R
 
